@@ -3,6 +3,7 @@ package c05
 import (
 	"encoding/json"
 	"fmt"
+	"sort"
 	"strconv"
 	"strings"
 	"sync"
@@ -40,6 +41,7 @@ type cop struct {
 type scripts struct {
 	Clients    [][]cop `json:"clients"`
 	Background bool    `json:"background"`
+	Restart    bool    `json:"restart"`
 }
 
 var proc *sut.Proc
@@ -61,6 +63,7 @@ func genScripts(t *rapid.T) scripts {
 	nc := rapid.IntRange(3, 8).Draw(t, "clients")
 	var s scripts
 	s.Background = rapid.IntRange(0, 2).Draw(t, "bg") > 0
+	s.Restart = rapid.IntRange(0, 2).Draw(t, "restart") == 0
 	focus := rapid.IntRange(0, 8).Draw(t, "focus") // bias the whole case towards one family so that contention is high
 	for c := 0; c < nc; c++ {
 		n := rapid.IntRange(20, 150).Draw(t, "nops")
@@ -368,6 +371,51 @@ func runCase(t *rapid.T, replay *scripts) {
 	}
 	if len(problems) > 0 {
 		fail("%s", strings.Join(problems, "; "))
+	}
+	// Restart leg (one case in three): the order in which the commands took effect is also the order in which
+	// they were logged, so a server restarted from the append-only log (after the process was killed) serves the
+	// dataset the clients left behind. (The background SAVE/REWRITEAOF loop has been stopped: no rewrite is in flight.)
+	if s.Restart {
+		snapshotOf := func(c *sut.Conn) string {
+			var parts []string
+			for _, q := range [][]string{{"GET", "cnt"}, {"GET", "str"}, {"LRANGE", "lst", "0", "-1"}, {"SMEMBERS", "set"}, {"HGETALL", "hsh"}, {"ZRANGE", "zst", "0", "-1", "WITHSCORES"},
+				{"GET", "p1"}, {"GET", "p2"}, {"LRANGE", "la", "0", "-1"}, {"LRANGE", "lb", "0", "-1"}} {
+				r := c.Do(q...)
+				var flat []string
+				flatten(r, &flat)
+				if txt, ok := r.Val.Text(); ok && len(flat) == 0 {
+					flat = []string{txt}
+				}
+				if q[0] == "SMEMBERS" || q[0] == "HGETALL" {
+					sort.Strings(flat)
+				}
+				parts = append(parts, strings.Join(q[:2], " ")+" = "+strings.Join(flat, ","))
+			}
+			return strings.Join(parts, "; ")
+		}
+		before := snapshotOf(admin)
+		opts := p.Opts
+		p.Kill()
+		proc = nil
+		opts.Port, opts.RestoreAOF = 0, true
+		np, err := sut.StartProc(opts)
+		if err != nil {
+			fail("the server did not come up again from its append-only log after being killed: %v", err)
+		}
+		proc = np
+		rec.Add("server_restarts", 1)
+		c2, err := sut.Dial(np.Opts.Port)
+		if err != nil {
+			t.Fatalf("HARNESS-ERROR: dial after restart: %v", err)
+		}
+		c2.Timeout = 10 * time.Second
+		after := snapshotOf(c2)
+		c2.Do("REWRITEAOF") // keeps the log of the long-lived server short
+		c2.Close()
+		if after != before {
+			fail("after the concurrent run the process was killed and restarted from the append-only log: the dataset differs from the one the clients left behind.\nbefore: %s\nafter:  %s", trunc(before, 900), trunc(after, 900))
+		}
+		rec.Class("stress: kill + restart from the append-only log")
 	}
 	shared := len(s.Clients) >= 2
 	b, _ := json.Marshal(s)
